@@ -30,6 +30,7 @@ import (
 	"log"
 	"net"
 	"os"
+	"os/exec"
 	"path/filepath"
 	"strconv"
 	"strings"
@@ -184,7 +185,8 @@ type caseRun struct {
 
 	armedOp  *armed
 	armedPre *armed
-	realPre  map[string]bool // the resource itself must refuse its next PreCommit
+	realPre  map[string]bool          // the resource itself must refuse its next PreCommit
+	latePre  map[string]chan struct{} // ... and answer only after the resource's own timeout has expired
 	calls    map[string][]string
 
 	atts      []Step
@@ -247,6 +249,24 @@ func (cr *caseRun) takePre(param string) string {
 	}
 	return ""
 }
+func (cr *caseRun) takeLate(param string) chan struct{} {
+	cr.mu.Lock()
+	defer cr.mu.Unlock()
+	ch := cr.latePre[param]
+	return ch
+}
+
+// lateDone tells a nested archetype that is holding back its answer that the resource has
+// stopped waiting for it (the resource's PreCommit returned).
+func (cr *caseRun) lateDone(param string) {
+	cr.mu.Lock()
+	if ch := cr.latePre[param]; ch != nil {
+		close(ch)
+		delete(cr.latePre, param)
+	}
+	cr.mu.Unlock()
+}
+
 func (cr *caseRun) takeReal(param string) bool {
 	cr.mu.Lock()
 	defer cr.mu.Unlock()
@@ -338,6 +358,7 @@ func (f *faulty) PreCommit(iface distsys.ArchetypeInterface) chan error {
 		if e != nil {
 			f.cr.setFail("pre", f.param, "real")
 		}
+		f.cr.lateDone(f.param)
 		out <- e
 	}()
 	return out
@@ -491,7 +512,14 @@ func cellArchetype(cr *caseRun, param string, init tla.Value) distsys.MPCalArche
 					}
 					resp = ack("write_ack")
 				case "precommit_req":
-					if cr.takeReal(param) {
+					if late := cr.takeLate(param); late != nil {
+						// refuse, but only once the resource has given up waiting (its 100 ms timeout)
+						select {
+						case <-late:
+						case <-time.After(20 * time.Second):
+						}
+						resp = ack("aborted")
+					} else if cr.takeReal(param) {
 						resp = ack("aborted")
 					} else {
 						resp = ack("precommit_ack")
@@ -652,6 +680,7 @@ func (cr *caseRun) build() {
 	cr.params = map[string]distsys.ArchetypeResource{}
 	cr.calls = map[string][]string{}
 	cr.realPre = map[string]bool{}
+	cr.latePre = map[string]chan struct{}{}
 	cr.attSends, cr.expected, cr.got = map[string]int{}, map[string]int{}, map[string]int{}
 	var np *netPair
 	var db *badger.DB
@@ -1062,6 +1091,8 @@ func (cr *caseRun) body(iface distsys.ArchetypeInterface) error {
 		cr.mu.Lock()
 		if att.PM == "real" {
 			cr.realPre[p] = true
+		} else if att.PM == "late" {
+			cr.latePre[p] = make(chan struct{})
 		} else {
 			cr.armedPre = &armed{param: p, mode: att.PM}
 		}
@@ -1082,16 +1113,7 @@ func (cr *caseRun) runOnce() {
 			os.RemoveAll(cr.dir)
 		}
 	}()
-	kinds, inits := rec{}, rec{}
-	for _, rs := range cr.c.Res {
-		kinds[rs.Name] = rs.Kind
-		inits[rs.Name] = ints(rs.Init)
-	}
-	impls := rec{}
-	for _, rs := range cr.c.Res {
-		impls[rs.Name] = rs.Impl
-	}
-	cr.emit(rec{"e": "case", "id": cr.c.ID, "cfg": cr.c.Cfg, "inst": cr.c.Inst, "kinds": kinds, "init": inits, "impl": impls})
+	cr.emit(caseHeader(cr.c))
 
 	done := make(chan interface{}, 1)
 	go func() {
@@ -1162,6 +1184,16 @@ func (cr *caseRun) runOnce() {
 
 // runCase executes the case; a case whose set-up failed (a port taken by another process, ...)
 // is set up again, a few times, before it is reported as not executed.
+func caseHeader(c Case) rec {
+	kinds, inits, impls := rec{}, rec{}, rec{}
+	for _, rs := range c.Res {
+		kinds[rs.Name] = rs.Kind
+		inits[rs.Name] = ints(rs.Init)
+		impls[rs.Name] = rs.Impl
+	}
+	return rec{"e": "case", "id": c.ID, "cfg": c.Cfg, "inst": c.Inst, "kinds": kinds, "init": inits, "impl": impls}
+}
+
 func runCase(c Case) []rec {
 	for try := 0; ; try++ {
 		cr := &caseRun{c: c}
@@ -1185,6 +1217,7 @@ func main() {
 	casesF := flag.String("cases", "cases.ndjson", "")
 	outF := flag.String("out", "trace.ndjson", "")
 	par := flag.Int("par", 8, "cases run concurrently")
+	child := flag.Bool("child", false, "internal: run the cases in this process")
 	flag.Parse()
 	log.SetOutput(io.Discard)
 
@@ -1207,16 +1240,115 @@ func main() {
 	}
 	fh.Close()
 
-	evs := make([][]rec, len(cases))
-	sem := make(chan struct{}, *par)
+	if *child {
+		runChild(cases, *outF, *par)
+		return
+	}
+
+	// Parent: the cases run in child processes, so that a panic on a goroutine started by the code
+	// under test (which nothing can recover) costs one case, not the run. Cases a dead child did
+	// not finish are executed again, each alone; a case that kills its own process is recorded as
+	// a panic of the code under test.
+	dir, err := os.MkdirTemp("", "c01drv.")
+	if err != nil {
+		panic(err)
+	}
+	defer os.RemoveAll(dir)
+	nchild := 4
+	if len(cases) < nchild {
+		nchild = len(cases)
+	}
+	per := (*par + nchild - 1) / max(nchild, 1)
+	shards := make([][]Case, nchild)
+	for i, c := range cases {
+		shards[i%nchild] = append(shards[i%nchild], c)
+	}
+	results := map[string][]json.RawMessage{}
+	var rmu sync.Mutex
+	launch := func(name string, cs []Case, k int) string {
+		cf, of, ef := filepath.Join(dir, name+".cases"), filepath.Join(dir, name+".out"), filepath.Join(dir, name+".err")
+		f, err := os.Create(cf)
+		if err != nil {
+			panic(err)
+		}
+		for _, c := range cs {
+			b, _ := json.Marshal(c)
+			f.Write(b)
+			f.Write([]byte("\n"))
+		}
+		f.Close()
+		eh, _ := os.Create(ef)
+		cmd := exec.Command(os.Args[0], "-child", "-cases", cf, "-out", of, "-par", strconv.Itoa(k))
+		cmd.Stderr = eh
+		_ = cmd.Run()
+		eh.Close()
+		// collect the cases the child completed
+		if oh, err := os.Open(of); err == nil {
+			sc := bufio.NewScanner(oh)
+			sc.Buffer(make([]byte, 1<<20), 1<<28)
+			var cur []json.RawMessage
+			for sc.Scan() {
+				var e struct {
+					E  string `json:"e"`
+					ID string `json:"id"`
+				}
+				if json.Unmarshal(sc.Bytes(), &e) != nil {
+					continue
+				}
+				if e.E == "done" {
+					rmu.Lock()
+					results[e.ID] = cur
+					rmu.Unlock()
+					cur = nil
+					continue
+				}
+				cur = append(cur, append(json.RawMessage{}, sc.Bytes()...))
+			}
+			oh.Close()
+		}
+		b, _ := os.ReadFile(ef)
+		return string(b)
+	}
 	var wg sync.WaitGroup
+	for i := range shards {
+		wg.Add(1)
+		go func(i int) {
+			defer wg.Done()
+			launch(fmt.Sprintf("shard%d", i), shards[i], per)
+		}(i)
+	}
+	wg.Wait()
+	sem := make(chan struct{}, 4)
 	for i := range cases {
+		rmu.Lock()
+		_, ok := results[cases[i].ID]
+		rmu.Unlock()
+		if ok {
+			continue
+		}
 		wg.Add(1)
 		sem <- struct{}{}
 		go func(i int) {
 			defer wg.Done()
 			defer func() { <-sem }()
-			evs[i] = runCase(cases[i])
+			stderr := launch(fmt.Sprintf("single%d", i), []Case{cases[i]}, 1)
+			rmu.Lock()
+			defer rmu.Unlock()
+			if _, ok := results[cases[i].ID]; !ok {
+				msg := "the process died"
+				for _, ln := range strings.Split(stderr, "\n") {
+					if strings.HasPrefix(ln, "panic: ") || strings.HasPrefix(ln, "fatal error: ") {
+						msg = ln
+						break
+					}
+				}
+				if len(msg) > 400 {
+					msg = msg[:400]
+				}
+				h, _ := json.Marshal(caseHeader(cases[i]))
+				pe, _ := json.Marshal(rec{"e": "panic", "msg": msg, "crash": true})
+				results[cases[i].ID] = []json.RawMessage{h, pe}
+			}
 		}(i)
 	}
 	wg.Wait()
@@ -1226,16 +1358,53 @@ func main() {
 		panic(err)
 	}
 	w := bufio.NewWriter(oh)
-	for _, ev := range evs {
-		for _, e := range ev {
-			b, err := json.Marshal(e)
-			if err != nil {
-				panic(err)
-			}
-			w.Write(b)
+	for _, c := range cases {
+		for _, e := range results[c.ID] {
+			w.Write(e)
 			w.WriteByte('\n')
 		}
 	}
 	w.Flush()
+	oh.Close()
+}
+
+// runChild executes cases in this process, k at a time, appending each finished case to the
+// output (followed by a "done" marker) so that the parent knows what was completed if we die.
+func runChild(cases []Case, outF string, k int) {
+	oh, err := os.Create(outF)
+	if err != nil {
+		panic(err)
+	}
+	var omu sync.Mutex
+	if k < 1 {
+		k = 1
+	}
+	sem := make(chan struct{}, k)
+	var wg sync.WaitGroup
+	for i := range cases {
+		wg.Add(1)
+		sem <- struct{}{}
+		go func(i int) {
+			defer wg.Done()
+			defer func() { <-sem }()
+			ev := runCase(cases[i])
+			var buf bytes.Buffer
+			for _, e := range ev {
+				b, err := json.Marshal(e)
+				if err != nil {
+					panic(err)
+				}
+				buf.Write(b)
+				buf.WriteByte('\n')
+			}
+			b, _ := json.Marshal(rec{"e": "done", "id": cases[i].ID})
+			buf.Write(b)
+			buf.WriteByte('\n')
+			omu.Lock()
+			oh.Write(buf.Bytes())
+			omu.Unlock()
+		}(i)
+	}
+	wg.Wait()
 	oh.Close()
 }
